@@ -338,6 +338,18 @@ class Engine:
                 if fr[0] == 'if' and flow.flat(fr[1]):
                     miss.append('ctx:unconditional (found under a condition on %s)' % ','.join(sorted(a for a in flow.flat(fr[1]) if a[:2] in ('p:', 'F:'))[:3]))
                     break
+        if 'only_cond' in ctx:
+            # the event may be conditional, but only on (the presence of) the listed parameters: a check that additionally depends
+            # on another optional part runs for fewer inputs than it should (`if let Some(a) = a {..} else if let Some(b) = b {check(b)}`)
+            allowed = set(ctx['only_cond'])
+            for fr in e.ctx:
+                if fr[0] != 'if':
+                    continue
+                roots = {a[2:].split('.')[0].split('[')[0] for a in flow.flat(fr[1]) if a.startswith('p:')}
+                foreign = sorted(roots - allowed)
+                if foreign:
+                    miss.append('ctx:conditional only on %s (found under a condition on %s)' % ('/'.join(sorted(allowed)), ','.join(foreign)))
+                    break
         if 'cond' in ctx:
             ok = False
             for fr in e.ctx:
